@@ -549,7 +549,7 @@ def r127(report, index, lm, pm, tier):
               out, 'lexers/es5.py:t_regex_error')
     # the parenthesis bookkeeping of the lexer: token sequences (laid out
     # on a text) fed through _get_update_token up to the end of input
-    from .c04 import mk_lexer_obj
+    from .c04 import mk_lexer_obj, hand
     gut = lmeth.get('_get_update_token')
     if gut is None:
         raise AnalysisError('Lexer._get_update_token vanished')
@@ -566,9 +566,10 @@ def r127(report, index, lm, pm, tier):
                 (v, TY.get(v, 'ID')) for v in seq])
             feed_ = list(toks) + [None]
             lexer = mk_lexer_obj(lm=M_lexmodel)
-            lexer.lexer = Obj('PlyLexer', lexdata=text, lexpos=0, lineno=1)
-            lexer.get_lexer_token = ('pyfunc', lambda feed_=feed_:
-                                     feed_.pop(0))
+            lexer.lexer = Obj('PlyLexer', lexdata=text, lexpos=0,
+                              lineno=toks[0].lineno)
+            lexer.get_lexer_token = ('pyfunc', lambda feed_=feed_,
+                                     lexer=lexer: hand(lexer, feed_.pop(0)))
             out = 'returns'
             try:
                 for _ in range(len(toks) + 1):
